@@ -8,8 +8,8 @@
 #include <sys/wait.h>
 #include <pthread.h>
 
-enum { K_KEY, K_VALUE, K_CONT, K_SECTION, K_CBEFORE, K_CAFTER, K_DROPNAME, K_PATH, K_OPTION, K_TOOLARG, K_MANY, K_N };
-static const char *KN[K_N] = { "key", "value", "continuation line", "section name", "comment before", "comment after", "drop-in file name",
+enum { K_KEY, K_VALUE, K_CONT, K_SECTION, K_CBEFORE, K_CAFTER, K_CBLOCK2, K_CBLOCK3, K_DROPNAME, K_PATH, K_OPTION, K_TOOLARG, K_MANY, K_N };
+static const char *KN[K_N] = { "key", "value", "continuation line", "section name", "comment before", "comment after", "second line of a comment block", "all three lines of a comment block", "drop-in file name",
                                "path length", "option string", "econftool --delimiters", "16 entries, each with value, comment before and comment after of this length" };
 static const size_t LEN[] = { 1, 8190, 8191, 8192, 8193, 8194, 16384, 65536, 1048576 };
 static const size_t PLEN[] = { 4000, 4090, 4094, 4095, 4096, 4097, 4098, 4200 };
@@ -90,6 +90,7 @@ static void text_field_case(const char *sig)
   size_t L = LEN[li];
   char *big = pattern(L, (unsigned)kind);
   const char *g = NULL, *k = "k", *v0 = "v", *v1 = NULL, *cb = NULL, *ca = NULL;
+  char *cblock = NULL;
   sbuf f = {0};
   switch (kind) {
   case K_KEY: k = big; sb_printf(&f, "%s=v\n", big); break;
@@ -97,6 +98,8 @@ static void text_field_case(const char *sig)
   case K_CONT: v1 = big; sb_printf(&f, "k=v\n  %s\n", big); break;
   case K_SECTION: g = big; sb_printf(&f, "[%s]\nk=v\n", big); break;
   case K_CBEFORE: cb = big; sb_printf(&f, "#%s\nk=v\n", big); break;
+  case K_CBLOCK2: { sbuf c = {0}; sb_printf(&c, "first\n%s", big); cblock = c.s; cb = cblock; sb_printf(&f, "#first\n#%s\nk=v\n", big); break; }
+  case K_CBLOCK3: { sbuf c = {0}; sb_printf(&c, "%s\n%s\n%s", big, big, big); cblock = c.s; cb = cblock; sb_printf(&f, "#%s\n#%s\n#%s\nk=v\n", big, big, big); break; }
   default: ca = big; sb_printf(&f, "k=v #%s\n", big); break;
   }
   char dir[400], path[500];
@@ -158,7 +161,7 @@ out:
   if (back) econf_freeFile(back);
   if (lay) econf_freeFile(lay);
   unlink(path);
-  sb_free(&f); free(big);
+  sb_free(&f); free(big); free(cblock);
 }
 
 static void dropname_case(const char *sig)
@@ -371,7 +374,7 @@ static void *exec_on_small_stack(void *arg)
 {
   (void)arg;
   const char *sig = exec_sig;
-  if (kind <= K_CAFTER) text_field_case(sig);
+  if (kind <= K_CBLOCK3) text_field_case(sig);
   else if (kind == K_DROPNAME) dropname_case(sig);
   else if (kind == K_PATH) path_case(sig);
   else if (kind == K_MANY) many_case(sig);
